@@ -171,6 +171,14 @@ func TestC17(t *testing.T) {
 			}
 			// [sorted, input afterwards]
 			ret = lang.ArrayLit{Elems: []lang.Expr{lang.Call{Fn: fn, Args: args}, ea}}
+			if _, named := ea.(lang.Name); named && gen.Uniform(rt, "history", 3) == 0 {
+				// the input has a history: it was printed, searched, iterated or
+				// sorted before; and the result is printed as well
+				use := []string{"string(%s)", "len(%s)", "(1 in %s)", "sort(%s)", "reverse(%s, true)", "join(%s, \"\")"}[gen.Uniform(rt, "histuse", 6)]
+				prelude += "hist0 = " + fmt.Sprintf(use, lang.ExprText(ea)) + ";\n"
+				ret = lang.ArrayLit{Elems: []lang.Expr{lang.Call{Fn: fn, Args: args}, ea, lang.Call{Fn: "string", Args: []lang.Expr{lang.Call{Fn: fn, Args: args}}}, lang.Call{Fn: "string", Args: []lang.Expr{ea}}}}
+				col.Class("sort-input-with-history")
+			}
 		case "sorttwice":
 			// several results of sort/reverse/min/max alive at the same time:
 			// each is its own array
@@ -310,8 +318,19 @@ func checkSortPredicate(c *Case, fn string, fold bool) error {
 	if res.Panic != nil || res.PrepareErr != nil || res.Err != nil {
 		return fmt.Errorf("unexpected failure: panic=%v prepare=%v run=%v", res.Panic, res.PrepareErr, res.Err)
 	}
-	if res.Val.K != lang.KArray || len(res.Val.A) != 2 || res.Val.A[0].K != lang.KArray || res.Val.A[1].K != lang.KArray {
+	if res.Val.K != lang.KArray || (len(res.Val.A) != 2 && len(res.Val.A) != 4) || res.Val.A[0].K != lang.KArray || res.Val.A[1].K != lang.KArray {
 		return fmt.Errorf("expected [sorted, input], got %s", res.Val.Describe())
+	}
+	if len(res.Val.A) == 4 {
+		// [sorted, input, string(sorted'), string(input)]: the input prints as
+		// its elements say; the second sort result is an ordered permutation too
+		// (ties may fall differently), so only its length class is comparable
+		if res.Val.A[3].K != lang.KString || res.Val.A[3].S != res.Val.A[1].Inspect() {
+			return fmt.Errorf("string(input) is %s although the input is %s", res.Val.A[3].Describe(), res.Val.A[1].Describe())
+		}
+		if res.Val.A[2].K != lang.KString || len(res.Val.A[2].S) != len(res.Val.A[0].Inspect()) {
+			return fmt.Errorf("string(%s(input)) is %s although the result is %s", fn, res.Val.A[2].Describe(), res.Val.A[0].Describe())
+		}
 	}
 	out, in := res.Val.A[0].A, res.Val.A[1].A
 	if len(out) != len(in) {
